@@ -19,7 +19,7 @@ from lib.common import result, violation
 ID = "C08"
 LEVEL = "exploration"
 BATCH = 1
-CASE_TIMEOUT = 900
+CASE_TIMEOUT = 2400
 MIN_NONTRIVIAL = 60
 REQUIRED_COUNTERS = ["fidelity_trees", "corruptions_fed_to_builder", "corruptions_rejected", "hostile_archives", "hostile_members", "hostile_rejected"]
 RULE = ("fidelity: seeded trees (empty/large files, empty dirs, relative/absolute/dangling symlinks, hard links, setuid/setgid/sticky bits, "
@@ -38,8 +38,8 @@ def plan(tier, seed):
     for i in range(nf):
         cases.append({"kind": "fidelity", "seed": common.subseed(seed, "c08f", i), "trees": 6})
     for i in range(nc):
-        cases.append({"kind": "corrupt", "seed": common.subseed(seed, "c08c", i), "n": 9 if tier == "quick" else 60,
-                      "all_truncations": tier != "quick" and i < 3})
+        cases.append({"kind": "corrupt", "seed": common.subseed(seed, "c08c", i), "n": 9 if tier == "quick" else 20,
+                      "all_truncations": tier != "quick" and i < 1})
     for i in range(nh):
         cases.append({"kind": "hostile", "seed": common.subseed(seed, "c08h", i), "archives": 10 if tier == "quick" else 25})
     return cases
@@ -194,7 +194,9 @@ def corruptions(rnd, data, n, all_trunc):
     out = []
     L = len(data)
     if all_trunc:
-        for cut in range(0, L):
+        # every cut in the gzip header / trailer regions, a stride through the body (one bob download per cut)
+        cuts = sorted(set(list(range(0, min(L, 24))) + list(range(max(0, L - 24), L)) + list(range(0, L, max(1, L // 70)))))
+        for cut in cuts:
             out.append(("truncate", "all", data[:cut]))
         return out
     cuts = sorted(set([0, 1, 9, 10, 11, L // 4, L // 2, L - 9, L - 8, L - 5, L - 4, L - 1] + [rnd.randrange(0, L) for _ in range(n // 3)]))
